@@ -57,6 +57,8 @@ def generate(seed, tier):
     api = rng.choice(["gif", "gif", "video", "creator_gif", "solver_gif"])
     cfg = {"instance": spec, "api": api, "plot": "real" if (not long and n <= 5 and rng.random() < 0.25) else "stub",
            "earlier_episode": rng.randint(1, 6) if rng.random() < 0.3 else 0,
+           "frames_dir_name": rng.choice(["frames", "la40_gantt_chart_frames", "run7/frames", "frames_2024"]),
+           "out_name": rng.choice(["out", "ft06_gantt_chart", "v2"]),
            "listdir_seed": rng.randrange(1 << 30) if rng.random() < 0.6 else None,
            "stale": rng.choice([0, 0, 3, 12, 105]) if rng.random() < 0.4 else 0,
            "remove_frames": rng.random() < 0.7, "plot_current_time": rng.random() < 0.5,
@@ -266,8 +268,13 @@ def execute_anim(case, ctx):
     sink = []
     counter = []
     frames_bars = []
+    cwd = os.getcwd()
     try:
-        frames_dir = os.path.join(tmp, "frames")
+        # the library only ever sees relative, seed-determined names (the random temp dir is the cwd)
+        os.chdir(tmp)
+        frames_dir = cfg.get("frames_dir_name") or "frames"
+        if "/" in frames_dir:
+            os.makedirs(os.path.dirname(frames_dir), exist_ok=True)
         if cfg["stale"] and cfg["plot"] == "stub":  # stale frames come from an earlier run with the same plotter (same image size)
             # frames left behind by an earlier run that kept its frames
             os.makedirs(frames_dir, exist_ok=True)
@@ -289,7 +296,7 @@ def execute_anim(case, ctx):
                 counter.append(schedule.num_scheduled_operations)
                 return fig
             ctx.probe("real_plotter_frames")
-        out = os.path.join(tmp, "out.gif" if cfg["api"] != "video" else "out.mp4")
+        out = (cfg.get("out_name") or "out") + (".gif" if cfg["api"] != "video" else ".mp4")
         kw = dict(fps=1, remove_frames=cfg["remove_frames"], frames_dir=frames_dir, plot_current_time=cfg["plot_current_time"])
         history = list(hist_obs.history)
         with patched(gm, "os", ListdirProxy(cfg["listdir_seed"], ctx)), patched(gm, "imageio", ImageioProxy(imageio, sink, cfg["decode_real_gif"])):
@@ -347,6 +354,7 @@ def execute_anim(case, ctx):
         if n >= 100:
             ctx.probe("history_100_plus")
     finally:
+        os.chdir(cwd)
         plt.close("all")
         shutil.rmtree(tmp, ignore_errors=True)
     ctx.sim_time = m.makespan()
